@@ -254,11 +254,26 @@ def judge(ctx, c, variants=VARIANTS):
                   key=f"C05:negative:{tag}")
         integ = D.sum(axis=-1) * (360.0 / nd)
         ctx.close("C05.integrates-to-one", integ, np.ones_like(integ), atol=1e-9, case=wit, key=f"C05:normalisation:{tag}")
+        if rank >= 2 and min(np.shape(a1)[:2]) > 1 and sm in (None, "approximate"):
+            # (closed-form variants only: the iterative ones amplify one-ulp differences of the vectorised first guess
+            # on unrealisable moments - the clean tree gave a reproducible 1e-3 difference for one noisy quadruple)
+            # the same numbers in Fortran memory order (transposed datasets, loadmat output): the same result per member
+            fa = [np.asfortranarray(x) for x in (a1, b1, a2, b2)]
+            okf, Df = guarded(ctx, "C05.no-exception", lambda: edd(fa[0], fa[1], fa[2], fa[3], d, method, **kw), wit,
+                              key=f"C05:raised:{tag}")
+            if okf:
+                ctx.count("C05.fortran_ordered_inputs")
+                Df = np.asarray(Df, float)
+                ctx.check("C05.memory-order-does-not-matter", Df.shape == D.shape and bool(np.allclose(Df, D, rtol=1e-9, atol=1e-12 * float(mx.max()))),
+                          wit, {"method": tag}, key=f"C05:fortran-order:{tag}")
 
 
 def judge_spectrum(ctx, c):
     g = c["gen"]
     s = gs.build(g)
+    if c.get("subsecond") and "time" in s.dataset:
+        # time stamps with fractional seconds must be carried over as they are
+        s.dataset["time"] = s.dataset["time"] + np.timedelta64(int(c["subsecond"]), "ms")
     nd = int(c["nd"])
     for method, sm in c["variants"]:
         tag = method if sm is None else f"{method}:{sm}"
@@ -325,7 +340,8 @@ def make_spectrum_case(rng):
         a1, b1, a2, b2 = vonmises_moments(rng, np.asarray(g["E"]).shape)
         g.update({"a1": a1, "b1": b1, "a2": a2, "b2": b2})
     variants = [VARIANTS[int(i)] for i in rng.choice(4, size=2, replace=False)]
-    return {"gen": g, "nd": int(rng.choice([12, 24, 36, int(rng.integers(8, 181))])), "variants": variants}
+    return {"gen": g, "nd": int(rng.choice([12, 24, 36, int(rng.integers(8, 181))])), "variants": variants,
+            "subsecond": int(rng.choice([0, 370, 999]))}
 
 
 def all_N(ctx, rng):
